@@ -115,6 +115,11 @@ DepSub(CT, T) ==
            j == CHOOSE j \in DOMAIN tps : tps[j].b # <<>> /\ tps[j].b[1].k = "V" /\ \A q \in DOMAIN tps : (tps[q].b # <<>> /\ tps[q].b[1].k = "V") => j <= q
            is == {i \in DOMAIN tps : tps[i].n = tps[j].b[1].n} IN
        (IF is = {} THEN "outer" ELSE tps[CHOOSE i \in is : TRUE].v) \o "." \o ArgKind(T.a[j])
+       \* ... and whether the query itself respects the dependency: the (bound of the) argument in the dependent slot is unrelated to the
+       \* argument of the bounding parameter (D<Number, in Int> where Int is no Number - Scala), a query outside the bound Y : X
+       \o (IF is # {} /\ T.a[j].k = "W" /\ T.a[j].n = "in" /\ T.a[j].a # <<>> /\ tps[CHOOSE i \in is : TRUE].v = "out"     \* (shape out.in only: the others are listed as they are)
+              /\ (LET a1 == T.a[CHOOSE i \in is : TRUE]  b == T.a[j].a[1] IN a1.k # "W" /\ ~SubTop(CT, b, a1) /\ ~SubTop(CT, a1, b))
+           THEN ".unrelated" ELSE "")
   ELSE "nested"
 \* a parameter whose bound is a parameterized type that mentions another parameter (class Low<A, Y : Lymphoma<G, A, A>, F>): the search
 \* re-instantiates the argument in Y's slot to fit the bound for the new A (_replace_type_argument) even where the slot is invariant
